@@ -157,4 +157,32 @@ theorem deMorgan_exec (sqrt : Rat → Rat) (a : Arr) (t : List Arr) (ro rl rr : 
       constructor <;> linarith [hmaxrange.1, hmaxrange.2]
     exact (clamp_id hr2.1 hr2.2).symm
 
+/-! ### And ≤ Union ≤ Or for whole fields -/
+
+theorem clamp_mono {x y : Rat} (h : x ≤ y) : clampHiLo (-1) 1 x ≤ clampHiLo (-1) 1 y := by
+  unfold clampHiLo
+  simp only
+  split_ifs <;> linarith
+
+/-- **And ≤ Union ≤ Or, cell by cell, for whole fields and ANY inputs** (no hypothesis on values, hidden or present): the three results are missing
+in the same cells, and where they are present the And value is at most the Union value, which is at most the Or value -/
+theorem and_union_or_exec (sqrt : Rat → Rat) (a : Arr) (t : List Arr) (ra ru ro : Arr) (i : Nat)
+    (hand : exec sqrt .fuzzyAnd (a :: t) = .ok ra) (hun : exec sqrt .fuzzyUnion (a :: t) = .ok ru) (hor : exec sqrt .fuzzyOr (a :: t) = .ok ro)
+    (hi : ∀ x ∈ a :: t, i < x.cells.length) :
+    ∃ ca cu co, ra.cells[i]? = some ca ∧ ru.cells[i]? = some cu ∧ ro.cells[i]? = some co ∧ ca.mask = cu.mask ∧ cu.mask = co.mask ∧
+      (ca.mask = false → ca.val ≤ cu.val ∧ cu.val ≤ co.val) := by
+  obtain ⟨ca, h1, hma, hva⟩ := and_value sqrt a t ra i hand hi
+  obtain ⟨cu, h2, hmu, hvu⟩ := union_cell sqrt a t ru i hun hi
+  obtain ⟨co, h3, hmo, hvo⟩ := or_value sqrt a t ro i hor hi
+  refine ⟨ca, cu, co, h1, h2, h3, by rw [hma, hmu], by rw [hmu, hmo], ?_⟩
+  intro hm
+  have hmu' : cu.mask = false := by rw [hmu, ← hma]; exact hm
+  have hmo' : co.mask = false := by rw [hmo, ← hma]; exact hm
+  rw [hva hm, hvu hmu', hvo hmo']
+  have hcol : column (a :: t) i = (a.cells.getD i default) :: (t.map fun x => x.cells.getD i default) := by simp [column]
+  have hlen : (((a :: t).length : Nat) : Rat) = ((((column (a :: t) i).map (·.val)).length : Nat) : Rat) := by simp [column]
+  rw [hlen, hcol, List.map_cons]
+  have := and_le_union_le_or (a.cells.getD i default).val ((t.map fun x => x.cells.getD i default).map (·.val))
+  exact ⟨clamp_mono this.1, clamp_mono this.2⟩
+
 end MPilot.C06
